@@ -167,8 +167,10 @@ def check(spec, ctx):
     # involution: complement of the second strand gives back the first
     second = nx.Graph()
     resid_to_node = {meta.nodes[k]["resid"]: k for k in meta.nodes}
+    keep_ids = spec["rng"] % 2 == 0       # the added strand keeps its residue ids n+1..2n, or is renumbered from 1
+    shift = n if keep_ids else 0
     for k in range(1, n + 1):
-        second.add_node(k - 1, resname=meta.nodes[resid_to_node[n + k]]["resname"], resid=k)
+        second.add_node(k - 1, resname=meta.nodes[resid_to_node[n + k]]["resname"], resid=k + shift)
     for u, v, d in meta.edges(data=True):
         ru, rv = meta.nodes[u]["resid"], meta.nodes[v]["resid"]
         if ru > n and rv > n:
@@ -178,7 +180,13 @@ def check(spec, ctx):
         complement_dsDNA(meta2)
     except Exception as err:
         raise crash("involution:crash", err)
-    resid_to_node2 = {meta2.nodes[k]["resid"]: k for k in meta2.nodes}
+    second_names = [meta.nodes[resid_to_node[n + k]]["resname"] for k in range(1, n + 1)]
+    verify(meta2, second_names, {k: second_names[k - 1] for k in range(1, n + 1)},
+           {frozenset((second.nodes[u]["resid"] - shift, second.nodes[v]["resid"] - shift)): dict(d)
+            for u, v, d in second.edges(data=True)}, spec["circular"], "involution", base=shift)
+    if keep_ids:
+        ctx.label("strand_numbered_from_n_plus_1")
+    resid_to_node2 = {meta2.nodes[k]["resid"] - shift: k for k in meta2.nodes}
     back = [meta2.nodes[resid_to_node2[n + k]]["resname"] for k in range(1, n + 1)]
     if back != names:
         raise Violation("involution", f"complement of the complement is {back[:6]}.. expected {names[:6]}..")
@@ -187,11 +195,14 @@ def check(spec, ctx):
     ctx.nontrivial = n >= 3 and len(set(spec["bases"])) >= 3
 
 
-def verify(meta, names, before_nodes, before_edges, circular, clause):
+def verify(meta, names, before_nodes, before_edges, circular, clause, base=0):
+    """the strand to complete carries the residue ids base+1 .. base+n; everything below is written in ids
+    relative to base"""
     n = len(names)
-    nodes = {meta.nodes[k]["resid"]: meta.nodes[k]["resname"] for k in meta.nodes}
+    nodes = {meta.nodes[k]["resid"] - base: meta.nodes[k]["resname"] for k in meta.nodes}
     if sorted(nodes) != list(range(1, 2 * n + 1)):
-        raise Violation(f"{clause}:resids", f"{len(nodes)} residues with resids {sorted(nodes)[:6]}.. expected 1..{2 * n}")
+        raise Violation(f"{clause}:resids", f"{len(nodes)} residues with resids {[r + base for r in sorted(nodes)][:6]}.. "
+                                            f"expected {base + 1}..{base + 2 * n}")
     if len(meta.nodes) != 2 * n:
         raise Violation(f"{clause}:count", f"{len(meta.nodes)} nodes")
     for rid, name in before_nodes.items():
@@ -202,7 +213,7 @@ def verify(meta, names, before_nodes, before_edges, circular, clause):
         if nodes[n + k] != want:
             raise Violation(f"{clause}:pairing", f"residue {n + k} is {nodes[n + k]}, expected {want} "
                                                  f"(complement of residue {n + 1 - k} {names[n - k]})")
-    edges = {frozenset((meta.nodes[u]["resid"], meta.nodes[v]["resid"])): dict(d) for u, v, d in meta.edges(data=True)}
+    edges = {frozenset((meta.nodes[u]["resid"] - base, meta.nodes[v]["resid"] - base)): dict(d) for u, v, d in meta.edges(data=True)}
     want_edges = dict(before_edges)
     for pair, attrs in before_edges.items():
         a, b = tuple(pair)
